@@ -518,6 +518,11 @@ def c09_families(rng, tier):
     fams = [fam("seven_six_five_chains", lines,
                 "seeded, made and row-targeted sevens: v7 <= all seven six-card values, v7 = their minimum, each v6 <= its six "
                 "five-card values and equals their minimum (projection: booleans only; 1 + 7 + 42 rankings per case)", pinned=True)]
+    fams.append(fam("vsame_projection", [line("vsame %d" % (5 + j % 3), rand_hand(rng, 5 + j % 3)) for j in range(900)],
+                    "the projection the validated-value sweeps use, on model and implementation", pinned=True))
+    fams += sweeps(rng, tier, lambda k: "vsame %d" % k, "1", "C09_projection_validated",
+                   "the validated entry points return the plain value on distinct real cards (so the chain is theirs too)",
+                   sizes=(6, 7), name="vsame", quick_strides={6: (1, 4, 4), 7: (4, 16, 16)})
     fams += sweeps(rng, tier, lambda k: "chain7", "1 1 1 1", "C09_projection",
                    "seven <= each six-subset <= each five-subset and both minima attained", sizes=(7,), name="chain")
     return fams
@@ -1228,7 +1233,16 @@ def c19_families(rng, tier):
             perms.append("perm %d %s %s" % (n_slots, " ".join(map(str, ws)), " ".join(map(str, t))))
         for bad in ([0, 1, 2, 3, n_slots], [255, 0, 0, 0, 0], [n_slots, n_slots, 0, 1, 2]):
             oor.append("perm %d %s %s" % (n_slots, " ".join(map(str, ws)), " ".join(map(str, bad))))
+    perms0 = []
+    for n_slots in (6, 7):
+        for z in range(n_slots):
+            ws = [100 + 11 * i for i in range(n_slots)]
+            ws[z] = 0
+            for t in itertools.product(range(n_slots), repeat=5):
+                perms0.append("perm %d %s %s" % (n_slots, " ".join(map(str, ws)), " ".join(map(str, t))))
     return [
+        fam("selection_with_a_blank", perms0, "ALL 6^5 and 7^5 in-range index tuples on hands holding the blank word in each position in turn",
+            exhaustive=True, profiles=["release"], pinned=True),
         fam("histories", hist, "every setter of every size after every constructor on distinct sentinel words; seeded histories of 1..40 "
             "constructor / setter calls with arbitrary u32 words; after EVERY step the container is read back by to_arr, accessors and iter",
             categories=cats, pinned=True),
